@@ -18,4 +18,6 @@ def run(rep):
         sc.leg_a(rep, 'C03', 5, 3, 0)
     sc.leg_b(rep, 'C03', 30 if quick else 400, 40 if quick else 60, 3 if quick else 4, 4 if quick else 5,
              list(__import__('harness.gen', fromlist=['x']).FAMILIES), ms=(), ks=())
+    sc.narrow_dtype_cases(rep, 4 if quick else 12, 180 if quick else 600)
+    sc.scale_by_tiling(rep, 33200 if quick else 70000, ms=())
     rep.exhaustive = True
